@@ -98,6 +98,18 @@ func c20Entry(p *chk.Prog, r *chk.Report) {
 							okk = true
 						}
 					}
+					// or the call sits in a function literal that a locking helper runs with the mutex held around
+					// the whole invocation (l.locked(func() { return l.XChanged(...) }))
+					if !okk {
+						for q := p.Parent(call); q != nil && q != ast.Node(f.Body); q = p.Parent(q) {
+							if lit, isLit := q.(*ast.FuncLit); isLit {
+								if _, entryHeld := la.LitEntry(f, lit)[lock]; entryHeld {
+									okk = true
+								}
+								break
+							}
+						}
+					}
 				}
 				x.Check("Listener."+fldName+"@"+f.Name(), call.Pos(), okk, "", "the "+fldName+" handler is invoked outside "+wrapper+" or without the Listener mutex held for the whole call: two reconcilers could run handlers concurrently")
 				return true
